@@ -505,6 +505,14 @@ impl<'a> Gen<'a> {
     }
 
     fn str_lit(&mut self) -> String {
+        // spellings whose VALUE depends on the decoder (decimal escapes followed by a digit,
+        // long brackets with a level / a leading newline): the source-text leg of the rule properties
+        // (harness/src/srclit.rs) compares what the parser computed with an independent decoding.
+        // Only spellings that are valid Lua 5.1 here (C07 demands strict Lua 5.1 output, and no rule lowers `\\x`/`\\u{}`/`\\z`):
+        // the Luau-only escapes are in progen_c01::STRING_SPELLINGS
+        if self.rng.chance(1, 6) {
+            return (*self.rng.pick(&["\"\\0011\"", "'\\0120'", "\"\\65\\066\"", "'\\0490'", "\"a\\tb\"", "[==[lo]]ng]==]", "[[\nnl]]", "'\\9\\10'"])).to_owned();
+        }
         (*self.rng.pick(&["'a'", "\"b\"", "'hello'", "''", "'x y'", "\"it's\"", "'1'", "[[long]]", "'%d'", "'a\\nb'"])).to_owned()
     }
 
